@@ -1,5 +1,7 @@
 """C09 — HTTP router (rest/router/patrouter.go over core/search/tree.go)."""
 import itertools
+import os
+import re
 
 import vlib
 from runner import Property, ExecError
@@ -121,6 +123,88 @@ def _from_groups(groups, reqs, nf=False, na=False, cors=False, use=False, **cfg)
             "events": events, "reqs": [["0", m, p, "path"] for m, p in reqs]}
 
 
+HTTP_METHOD_CONSTS = {"MethodGet": "GET", "MethodHead": "HEAD", "MethodPost": "POST", "MethodPut": "PUT", "MethodPatch": "PATCH",
+                      "MethodDelete": "DELETE", "MethodConnect": "CONNECT", "MethodOptions": "OPTIONS", "MethodTrace": "TRACE"}
+HTTP_STATUS_CONSTS = {"StatusMethodNotAllowed": 405, "StatusNotFound": 404, "StatusOK": 200, "StatusNoContent": 204,
+                      "StatusForbidden": 403, "StatusBadRequest": 400}
+
+
+def _func_body(src, header_re):
+    m = re.search(header_re, src)
+    if not m:
+        raise RuntimeError("C09 regen: cannot find %s" % header_re)
+    i = src.index("{", m.end() - 1)
+    depth, j = 0, i
+    while True:
+        if src[j] == "{":
+            depth += 1
+        elif src[j] == "}":
+            depth -= 1
+            if depth == 0:
+                return src[i + 1:j]
+        j += 1
+
+
+def extract_constants():
+    """what the model assumes about rest/router/patrouter.go and core/search/tree.go, re-read from the checked tree"""
+    pr = open(os.path.join(vlib.REPO, "rest/router/patrouter.go")).read()
+    tr = open(os.path.join(vlib.REPO, "core/search/tree.go")).read()
+    body = _func_body(pr, r"func validMethod\(method string\) bool \{")
+    methods = []
+    for tok in re.findall(r'method\s*==\s*(http\.\w+|"[^"]*")', body):
+        if tok.startswith('"'):
+            methods.append(tok[1:-1])
+        else:
+            name = tok.split(".")[1]
+            if name not in HTTP_METHOD_CONSTS:
+                raise RuntimeError("C09 regen: unknown method constant %s in validMethod" % tok)
+            methods.append(HTTP_METHOD_CONSTS[name])
+    if not methods or len(re.findall(r"==", body)) != len(methods) or "!=" in body or "&&" in body:
+        raise RuntimeError("C09 regen: validMethod is no longer a disjunction of method equalities: %r" % body)
+
+    def const(src, name, what):
+        m = re.search(r'\b%s\s*=\s*("(?:[^"\\]|\\.)*"|\'(?:[^\'\\]|\\.)\')' % name, src)
+        if not m:
+            raise RuntimeError("C09 regen: constant %s not found in %s" % (name, what))
+        return m.group(1)[1:-1]
+    serve = _func_body(pr, r"func \(pr \*patRouter\) ServeHTTP\(w http\.ResponseWriter, r \*http\.Request\) \{")
+    st = re.findall(r"w\.WriteHeader\(http\.(\w+)\)", serve)
+    if len(st) != 1 or st[0] not in HTTP_STATUS_CONSTS:
+        raise RuntimeError("C09 regen: ServeHTTP does not write exactly one known status itself: %r" % st)
+    hdr = re.findall(r"w\.Header\(\)\.Set\((\w+),", serve)
+    if hdr != ["allowHeader"]:
+        raise RuntimeError("C09 regen: ServeHTTP sets other headers than allowHeader: %r" % hdr)
+    return {"methods": methods, "allow_header": const(pr, "allowHeader", "patrouter.go"),
+            "allow_sep": const(pr, "allowMethodSeparator", "patrouter.go"), "status": HTTP_STATUS_CONSTS[st[0]],
+            "colon": const(tr, "colon", "tree.go"), "slash": const(tr, "slash", "tree.go")}
+
+
+def regen_constants():
+    v = extract_constants()
+    for k in ("colon", "slash"):
+        if len(v[k]) != 1 or v[k] in '"\\':
+            raise RuntimeError("C09 regen: unexpected %s constant %r" % (k, v[k]))
+    lines = ["(* GENERATED by tools/props/c09.py from rest/router/patrouter.go and core/search/tree.go of the checked tree",
+             "   at every run - do not edit. *)",
+             "From Coq Require Import ZArith List String Ascii.", "Import ListNotations.",
+             "Definition gen_valid_methods : list string := %s." % clist([cstr(m) for m in v["methods"]]),
+             "Definition gen_allow_header : string := %s." % cstr(v["allow_header"]),
+             "Definition gen_allow_separator : string := %s." % cstr(v["allow_sep"]),
+             "Definition gen_not_allowed_status : Z := %d%%Z." % v["status"],
+             'Definition gen_colon : ascii := "%s"%%char.' % v["colon"],
+             'Definition gen_slash : ascii := "%s"%%char.' % v["slash"], ""]
+    text = "\n".join(lines)
+    path = os.path.join(vlib.COQ, "gen", "C09Consts.v")
+    os.makedirs(os.path.dirname(path), exist_ok=True)
+    old = open(path).read() if os.path.exists(path) else None
+    if old != text:
+        tmp = path + ".tmp%d" % os.getpid()
+        with open(tmp, "w") as f:
+            f.write(text)
+        os.replace(tmp, path)
+    return v, old != text
+
+
 class C09(Property):
     id = "C09"
     title = "HTTP router dispatches every request to the right route with the right variables"
@@ -149,6 +233,11 @@ class C09(Property):
     ]
     assumptions = ["handlers are non-nil (errEmptyItem not modelled)",
                    "a request is served after all registrations (Handle is not concurrent with ServeHTTP)"]
+
+    def regen(self, ctx):
+        v, changed = regen_constants()
+        return ["constants re-read from patrouter.go / tree.go: methods=%s allow=%r sep=%r status=%d%s"
+                % (",".join(v["methods"]), v["allow_header"], v["allow_sep"], v["status"], " (CHANGED)" if changed else "")]
 
     def prepare(self, ctx):
         ok, res = vlib.go_build("c09")
